@@ -107,6 +107,11 @@ package main
 //@   modifies inferred
 //@   loop 1
 //@     invariant wf: forall k int :: 0 <= k && k < len(ranges) ==> ranges[k].Low >= 0 && (ranges[k].Hi == 0 || ranges[k].Hi > ranges[k].Low)
+// each requested entry [low, hi) becomes a range with the same lower end and the same ids up to the last message: it
+// is clipped at lastID+1 only if it reaches beyond the last message, never widened
+//@     iterates [C04] same_low: len(ranges) == prev(len(ranges)) + 1 ==> ranges[len(ranges)-1].Low == dq.LowId && dq.LowId == msg.Del.DelSeq[prev(#idx) - 1].LowId
+//@     iterates [C04] never_widened: len(ranges) == prev(len(ranges)) + 1 ==> upper(ranges[len(ranges)-1]) <= ((msg.Del.DelSeq[prev(#idx) - 1].HiId == 0 || msg.Del.DelSeq[prev(#idx) - 1].HiId == msg.Del.DelSeq[prev(#idx) - 1].LowId) ? msg.Del.DelSeq[prev(#idx) - 1].LowId + 1 : msg.Del.DelSeq[prev(#idx) - 1].HiId)
+//@     iterates [C04] within_history: len(ranges) == prev(len(ranges)) + 1 ==> upper(ranges[len(ranges)-1]) <= t.lastID + 1
 
 // Loaders: numbering resumes from the stored high-water mark, which (recovery invariant of messagesMapper.Save)
 // is at least every stored message number.
